@@ -1,0 +1,12 @@
+//go:build verif
+
+package nsqd
+
+import "net"
+
+// VerifWrapTCPListener replaces the TCP listener the daemon's accept loop
+// (protocol.TCPServer, started by Main) will use by wrap(listener).  To be called
+// between New and Main; the wrapper must pass Close and Addr through.
+func (n *NSQD) VerifWrapTCPListener(wrap func(net.Listener) net.Listener) {
+	n.tcpListener = wrap(n.tcpListener)
+}
